@@ -56,3 +56,8 @@ package pruner
 //@   loop 1: invariant s.checkpoint == old(s.checkpoint) && s.checkpoint.FailedHeaders == old(s.checkpoint.FailedHeaders)
 //@   loop 1: invariant forall h uint64 :: seen(1, h) ==> has(s.checkpoint.FailedHeaders, h)
 //@   loop 1: invariant forall h uint64 :: old(has(s.checkpoint.FailedHeaders, h)) ==> has(s.checkpoint.FailedHeaders, h)
+
+// Persisting a checkpoint reads it (JSON) and writes the datastore only.
+//@ func storeCheckpoint
+//@   property C14
+//@   requires c != nil
